@@ -88,6 +88,11 @@ CHECKS.update({
         text="C11_doc_*_aliases / C11_doc_*_lex are decided by computation over the regenerated tables and the lexer model; C11_case_insensitive is proved for every string and re-casing function. On every run generated valid queries are rendered with every alias of every aliased token, case variants of every word, both bracket styles, optional tokens, full and partial argument splits; the real parser's Query and the binary's output must be identical to the canonical rendering's.",
         note="Known finding F23: with several arguments the search root extends to the end of its argument, so partial splits that leave words after the root in the same argument change the query; the generator keeps the root alone in its argument and the witness is replayed. Unicode lower-casing of keywords is modelled as ASCII (+ Kelvin sign).",
         design="6 C11"),
+    "C15": dict(
+        technique="Executable Coq model of the whole pipeline for arithmetic columns (Lexer -> Parser -> get_column_expr_value with its Display-keyed cache -> f64 Display) with kernel-evaluated precedence/associativity/bracket witnesses over the regenerated operator table + differential test of select lists and WHERE expressions",
+        text="C15_operator_table pins ArithmeticOp::calc as regenerated; C15_parse_witnesses evaluates, through the model parser and evaluator, the witnesses that separate every precedence / associativity / bracket / unary-minus rule and the column pairs that differ only in operator or brackets. On every run random expressions to depth 4 in select lists of 1-5 columns are evaluated by the binary and compared with binary64 arithmetic (oracle), with the same column selected alone, and with the model pipeline; WHERE on expressions likewise.",
+        note="The general parser round-trip theorem (for every expression) is not yet proved: the witnesses are finite. f64 % is compared with the oracle only. Literals are plain numbers (unit literals inside arithmetic go through parse_filesize, C14).",
+        design="6 C15"),
 })
 
 ALL = ["C%02d" % i for i in range(1, 21)]
